@@ -177,6 +177,40 @@ def run_sketch(sx, name, iterations, fix_mode="index"):
     return "smoothed"
 
 
+LIBRARY_SKETCHES = {
+    "SplineDisk": lambda: cb.SplineDisk([0.5, 0, 0], [0.5, 1, 0], [0.5, 0, 2], 0.4, 0.8),
+    "HalfSplineDisk": lambda: cb.HalfSplineDisk([0.5, 0, 0], [0.5, 1, 0], [0.5, 0, 2], 0.4, 0.8),
+    "FourCoreDisk": lambda: cb.FourCoreDisk([1, -2, 0.5], [2.5, -2, 0.5], [0, 0, 1]),
+    "OneCoreDisk": lambda: cb.OneCoreDisk([1, -2, 0.5], [2.5, -2, 0.5], [0, 0, 1]),
+    "Oval": lambda: cb.Oval([0, 0, 0], [0, 2, 0], [0, 0, 1], 0.7),
+}
+
+
+def run_library_sketch(sx, cls_name, iterations=1):
+    """the mapped sketches of the library (their `grid` may list the faces in another order than `faces`/`indexes`):
+    concrete geometry, judged against the same reference as the symbolic maps"""
+    sketch = LIBRARY_SKETCHES[cls_name]()
+    quads = [[int(i) for i in q] for q in sketch.indexes]
+    P0 = np.array(sketch.positions, dtype=float)
+    boundary, nb = topology(quads, 2)
+    free = [i for i in range(len(P0)) if i not in boundary]
+    SketchSmoother(sketch).smooth(iterations)
+    sx.reach("smoothed")
+    got = np.array(sketch.positions, dtype=float)
+    tag = f"{cls_name}, {iterations} it."
+    keep = sorted(boundary)
+    sx.prove(bool(np.allclose(got[keep], P0[keep], atol=1e-9, rtol=0)), f"{tag}: boundary points are exactly where they were",
+             f"C15:sketch:unmoved:{cls_name}")
+    want = _reference(P0, free, nb, iterations)
+    sx.prove(all(np.allclose(got[i], want[i], atol=1e-9, rtol=0) for i in free),
+             f"{tag}: every interior point is the average of the points it shares a face edge with (sweep in index order)",
+             f"C15:sketch:average:{cls_name}", info={"free": free})
+    ok = all(np.allclose(face.points[k].position, got[q[k]], atol=1e-9, rtol=0)
+             for q, face in zip(quads, sketch.faces) for k in range(4))
+    sx.prove(ok, f"{tag}: all faces sharing a point hold the same smoothed position", f"C15:sketch:copy-back:{cls_name}")
+    return "smoothed"
+
+
 def run_fixpoint(sx, name):
     """if every free interior point already equals its neighbours' average, smooth(3) changes nothing"""
     base, quads = MAPS[name]()
@@ -287,6 +321,10 @@ def jobs(tier, seed):
         add("run_sketch", f"sketch|{name}|fix-by-position", name=name, iterations=1, fix_mode="position")
         add("run_sketch", f"sketch|{name}|fixed in several calls", name=name, iterations=1, fix_mode="several-calls")
         add("run_fixpoint", f"fix-point|{name}", name=name)
+    for cls_name in LIBRARY_SKETCHES:
+        if hasattr(cb, cls_name):
+            js.append({"name": f"library sketch|{cls_name}|ground twin only", "fn": "run_library_sketch", "symbolic": False,
+                       "params": {"cls_name": cls_name, "iterations": 2}, "budget_s": 60})
     for (nx, ny) in ((2, 2), (3, 3), (4, 2)):
         add("run_regular", f"regular|{nx}x{ny}", nx=nx, ny=ny)
     add("run_mesh", "mesh|2x2x2|it=1", name="2x2x2", iterations=1)
